@@ -70,6 +70,27 @@ type Destination struct {
 
 // New creates a destination object. Note that it still needs to be told to run via Run().
 func New(routeName string, matcher matcher.Matcher, addr, spoolDir string, spool, pickle bool, periodFlush, periodReConn time.Duration, connBufSize, ioBufSize, spoolBufSize int, spoolMaxBytesPerFile, spoolSyncEvery int64, spoolSyncPeriod, spoolSleep, unspoolSleep time.Duration) (*Destination, error) {
+	// these end up in time.NewTicker and in the buffered writer, which panic on values <= 0
+	if periodFlush <= 0 {
+		return nil, errors.New("flush period must be > 0")
+	}
+	if periodReConn <= 0 {
+		return nil, errors.New("reconnect period must be > 0")
+	}
+	if connBufSize < 0 {
+		return nil, errors.New("connbuf must be >= 0")
+	}
+	if ioBufSize <= 0 {
+		return nil, errors.New("iobuf must be > 0")
+	}
+	if spool {
+		if spoolBufSize < 0 {
+			return nil, errors.New("spoolbuf must be >= 0")
+		}
+		if spoolSyncPeriod <= 0 {
+			return nil, errors.New("spoolsyncperiod must be > 0")
+		}
+	}
 	key := util.Key(routeName, addr)
 	addr, instance := addrInstanceSplit(addr)
 	dest := &Destination{
